@@ -136,6 +136,15 @@ chk('C20',
     COMMON_NOTE, 'exhaustive fault-position enumeration over bounded-exhaustively generated valid inputs',
     'DESIGN.md section 4 C20')
 
+chk('C15',
+    'Stereo double bond family (5 x 4 ligand position forms, both relations, every slash-mark pair that pysmiles reads as the intended relation on the uncut text) x 6 cut placements (none, at the double '
+    'bond, at single bonds elsewhere on either side, combined, at the ligand bond) x every order of the fragments in the base graph x descriptor kind; stereocentre family (3 molecules incl. an S-aryl one, 5 label '
+    'spellings) x every subset of the cuttable bonds around the centre (the centre alone included) x fragment orders. Oracle: relation between F and Cl as intended, every stored 4-path exists with a double bond '
+    'in the middle, the chirality label sits exactly on the atom with the right neighbourhood. Two recorded defects (fragment-order dependent flip of a cut double bond; mark lost at a cut ligand bond) are KNOWN-FINDINGs.',
+    COMMON_NOTE + ' pysmiles.read_smiles on the uncut text defines which marks mean cis / trans.',
+    'bounded-exhaustive enumeration of stereo molecules x cut placements x fragment orders on the real resolver',
+    'DESIGN.md section 4 C15')
+
 NOT_YET = {}
 
 def main():
